@@ -190,7 +190,29 @@ def rule_g(chk: Check) -> None:
         apps = [c for c in calls(rf.node) if method_call(c) and method_call(c)[1] in ("append", "add") and dotted(method_call(c)[0]) == chain]
         if not apps or any(dotted(a.args[0]) != url_p for a in apps):
             ok5 = False
-    if not ok5:
+    # the chain is per fetch: callers other than the follower itself start it empty
+    if lt:
+        chain_param = dotted(lt[0].ast.comparators[0])
+        ci_ = rf.cls
+        for m_ in (ci_.methods.values() if ci_ else []):
+            if m_ is rf:
+                continue
+            for c in calls(m_.node):
+                if dotted(c.func) != f"self.{rf.node.name}":
+                    continue
+                params_ = [p for p in rf.params if p != "self"]
+                v = kwarg(c, chain_param)
+                if v is None and chain_param in params_ and len(c.args) > params_.index(chain_param):
+                    v = c.args[params_.index(chain_param)]
+                fresh = v is None or (isinstance(v, ast.Constant) and v.value is None) or (isinstance(v, (ast.List, ast.Set)) and not v.elts) or (isinstance(v, ast.Call) and dotted(v.func) in ("list", "set") and not v.args)
+                if not fresh:
+                    ok5 = False
+                    chk.finding(
+                        "G5", m_.key, f"chain-shared:{norm(v)[:40]}",
+                        f"the follower is started with the chain `{norm(v)}`, an object that outlives this fetch: another fetch on the same client that clears or extends it in between empties the loop detector and the hop counter of this one, so cycles and over-long chains are followed without bound",
+                        m_.loc(c),
+                    )
+    if not ok5 and not any(f.rule == "G5" and "chain-shared" in f.key for f in chk.findings):
         chk.finding("G5", rf.key, "loop-detection", "the URL about to be fetched is not tested against the chain before the fetch, or something other than the fetched URL is recorded", rf.loc())
     chk.ob("G5", f"{rf.key}: loop detection", ok5)
 
@@ -266,6 +288,9 @@ def rule_g6(chk: Check) -> None:
 def run(chk: Check) -> None:
     rule_g(chk)
     rule_g6(chk)
+    from .c19 import wire_fidelity
+
+    wire_fidelity(chk, "G9", "every hop is keyed for the pin check by the canonical host and port: ParsedURL.hostname is the lower-cased, unbracketed host for every spelling a redirect target may use (= C19.N1-N3)")
     from .c03 import option_wiring
 
     chk.rule("G7", "the redirect budget reaches the client as given: every GeminiClient construction passes max_redirects as the caller's own option, a literal or the default (0 is a valid budget)")
